@@ -64,7 +64,7 @@ theorem saveMeshT_tr (fn : Fn R) (K : ConstsTR R) (s : StateTR R) (t : V3 R) :
     cases collect (s.cells.map rebaseCell) with
     | error e => rfl
     | ok cs => rfl
-  · simp only [h, if_false]
+  · simp only [h]
     rfl
 
 /-! ### 3., 4. update_face_types, refine_meshes -/
@@ -488,7 +488,7 @@ theorem applyInternalForcesR_tr (fx : FX R) (K : Tissue.Consts R) (c : CellTR R)
     applyInternalForcesR fx K (trCellR t c) = trCellR t (applyInternalForcesR fx K c) := by
   unfold applyInternalForcesR
   simp only [trCellR_mesh, trCellR_a, trCellR_k, viewPos_get_tr t c.mesh h, liveF_translate, slots_translate, edgeRecs_translate,
-    tr_nodes_size, prelude_tr_exact, internalContribsSlots_tr_exact, nodeNormalsH_tr, refreshGeom_translate fx t _ (hasNode_iff.1 h),
+    prelude_tr_exact, internalContribsSlots_tr_exact, nodeNormalsH_tr, refreshGeom_translate fx t _ (hasNode_iff.1 h),
     tr_nodes, mapIdx_used, Array.size_map]
   rfl
 
